@@ -50,6 +50,13 @@ for m in sorted(glob.glob(os.path.join(V, "seeded", "*", "meta.json"))):
     d = json.load(open(m))
     out.append("| %s | %s | %s | %s | %s |" % (d["id"], d["property"], d["change"][:200].replace("|", "\\|"),
                d["needs"][:200].replace("|", "\\|"), d.get("caught_by", "?")))
+# ---- trusted base per property (from the manifest entries)
+me = json.load(open(os.path.join(V, "tools", "manifest_entries.json")))["checks"]
+out.append("\n#### Trusted base, and what is modelled rather than verified, per property (the `note` of each MANIFEST entry)\n")
+out.append("| id | technique | trusted / modelled / not covered |")
+out.append("|---|---|---|")
+for pid in sorted(me):
+    out.append("| %s | %s | %s |" % (pid, me[pid].get("technique", "").replace("|", "\\|"), me[pid].get("note", "").replace("|", "\\|")))
 text = "\n".join(out) + "\n"
 p = os.path.join(V, "DESIGN.md")
 s = open(p).read()
